@@ -9,7 +9,8 @@ from .base import Check
 JSON_THEOREMS = ["json_string_roundtrip", "surrogate_roundtrip", "json_roundtrip", "int_codec_lawful", "json_roundtrip_int",
                  "utf8_roundtrip", "sanitise_fixes_wellformed", "sanitise_wellformed", "sanitise_idempotent", "sanitise_model_meets_spec",
                  "json_roundtrip_bytes", "json_roundtrip_dict", "json_decode_encode_any", "canon_last_wins",
-                 "decode_message_only_objects", "decode_message_roundtrip", "message_model_meets_spec", "recv_message_only_objects", "decode_nesting_unbounded"]
+                 "decode_message_only_objects", "decode_message_roundtrip", "message_model_meets_spec", "recv_message_only_objects", "decode_nesting_bounded",
+                 "json_parser_roundtrip", "nesting_limit_matches_source", "jsonDecodeL_eq_some", "json_too_deep_rejected"]
 
 
 class C20(Check):
@@ -37,7 +38,8 @@ class C20(Check):
                   "the UTF-8 layer (utf8cpp validate_next/replace_invalid as Utility::ValidateUTF8 uses them; round trip composed down to bytes) and Dictionary's "
                   "sorted-map semantics (encode order, duplicate keys: last wins). Not modelled: JSON whitespace and raw non-ASCII inside JSON text (compared where the "
                   "model accepts), Boost.Asio/OpenSSL, memory safety of the C++ (exercised: every operation in a forked child, thorough tier additionally under "
-                  "ASan+UBSan builds of the codec sources). Known finding F-C20a: unbounded nesting depth overflows the coroutine stack.")
+                  "ASan+UBSan builds of the codec sources). F-C20a (unbounded nesting overflowed the coroutine stack) is fixed by 24727c0: the decoder model carries the limit of 1000, "
+                  "the constant is re-read from the source on every run, the boundary 999/1000/1001 and 12000/100000 levels are regression cases.")
     trusted_base = [
         "modelled, not verified: NetString::WriteStringToStream, both TLS ReadStringFromStream variants (one model: the statements are identical), the buffered "
         "ReadStringFromStream with StreamReadContext::FillFromStream/DropData (a fill = one chunk appended or EOF), JsonRpc::DecodeMessage and one iteration of "
@@ -157,9 +159,21 @@ class C20(Check):
         return ""
 
     def matches_known(self, entry, finding):
-        cls = entry.get("classifier")
-        return (finding.kind == "spec" and finding.what.startswith("spec:C20:no_crash:" + cls)
-                and self._classify(finding.case_lines) == cls)
+        return False      # C20 has no open known finding (F-C20a is fixed); `_classify` only keeps crash classes apart
+
+    def generate(self):
+        """Translator: l_JsonMaxNestingDepth of lib/base/json.cpp -> IcingaProofs/Gen/Limits.lean (theorem
+        nesting_limit_matches_source compares it with the model's constant)."""
+        import importlib.util, os
+        gen = os.path.join(core.ROOT, "gen", "c20_limits.py")
+        spec = importlib.util.spec_from_file_location("c20_limits", gen)
+        mod = importlib.util.module_from_spec(spec)
+        spec.loader.exec_module(mod)
+        try:
+            with core.Lock("lake"):
+                self.nesting_limit = mod.generate(core.REPO, os.path.join(core.LEAN, "IcingaProofs", "Gen", "Limits.lean"))
+        except mod.Lost as e:
+            raise core.TieBroken("translator:C20:anchor-lost", str(e))
 
     def _collect(self, lines, save, harness, driver, res, tag):
         """Turn the driver's SPECFAIL/MISMATCH/BADLINE lines into shrunk findings."""
